@@ -91,11 +91,21 @@ def run(ctx):
         ok = len(d) == 1 and {"factor", "sx", "sy", "phi"} <= \
             names_in(d[0].value)
         if ok:
-            t = norm(d[0].value).replace(" ", "")
-            want = ("factor*(abs(sx*np.cos(phi))+abs(sy*np.sin(phi)))"
-                    if axis == 0 else
-                    "factor*(abs(sx*np.sin(phi))+abs(sy*np.cos(phi)))")
-            ok = t == want
+            # compare as expressions (any equivalent spelling is accepted)
+            import sympy as sp
+            from .. import sym
+            F, SX, SY = sp.symbols("factor sx sy", positive=True)
+            PH = sp.Symbol("phi", real=True)
+            try:
+                e = sym.Translator(prog, mod, {"factor": F, "sx": SX,
+                                               "sy": SY, "phi": PH}).expr(
+                    d[0].value)
+                ref = F * (sp.Abs(SX * sp.cos(PH)) + sp.Abs(SY * sp.sin(PH))) \
+                    if axis == 0 else \
+                    F * (sp.Abs(SX * sp.sin(PH)) + sp.Abs(SY * sp.cos(PH)))
+                ok = sp.simplify(e - ref) == 0
+            except sym.Untranslatable:
+                ok = False
         ctx.check("C14-R2", mm, "half-width %s" % off, ok,
                   "the half-width along axis %d must be factor*(|sx cos| + "
                   "|sy sin|) resp. factor*(|sx sin| + |sy cos|)" % axis,
